@@ -87,6 +87,7 @@ func show(args []string) int {
 
 func main() {
 	vh.RegisterFunc("wire", runWire)
+	vh.RegisterFunc("wire-observe", runWireObserve)
 	vh.RegisterFunc("shell", runShell)
 	vh.RegisterFunc("spans", runSpans)
 	vh.Tool("show", show)
